@@ -41,10 +41,12 @@ def rand_exec(rng, nops, allow_attach=True):
             ops.append("copy %d" % i)
         elif k < 0.84:
             ops.append("assignb %d" % i)
-        elif k < 0.87:
+        elif k < 0.86:
             ops.append("appendb %d" % i)
-        elif k < 0.90:
+        elif k < 0.88:
             ops.append("prependb %d" % i)
+        elif k < 0.90:
+            ops.append("%s %d" % (rng.choice(["appendself", "prependself", "appendself", "assignself", "swapself"]), i))
         elif k < 0.93:
             ops.append("ctor %d %d" % (i, n))
         elif k < 0.95:
